@@ -489,10 +489,6 @@ def r105(an, rep):
     def reads_delta(e):
         return any(isinstance(x, ast.Attribute) and "line" in x.attr for x in ast.walk(e)) or any(
             isinstance(x, ast.Name) and "line" in x.id and x.id not in running for x in ast.walk(e))
-    accs = sorted(v for v in running if any(isinstance(n, ast.AugAssign) and isinstance(n.target, ast.Name) and n.target.id == v and reads_delta(n.value) for n in ast.walk(f.node)))
-    if not accs:
-        raise AnalysisError(f"{f.qual}: running line variable not recognised (candidates {sorted(running)})")
-
     def in_loop(node):
         cur = node
         while id(cur) in pm and pm[id(cur)] is not f.node:
@@ -500,6 +496,28 @@ def r105(an, rep):
             if isinstance(cur, (ast.For, ast.While)):
                 return True
         return False
+
+    def reads(e, v):
+        return any(isinstance(x, ast.Name) and x.id == v and isinstance(x.ctx, ast.Load) for x in ast.walk(e))
+
+    def arms_of(e):
+        if isinstance(e, ast.IfExp):
+            return arms_of(e.body) + arms_of(e.orelse)
+        return [e]
+    # accumulators: running variables whose new value (somewhere in a loop) depends on their old value
+    accs = []
+    for v in sorted(running):
+        for n in ast.walk(f.node):
+            if not in_loop(n):
+                continue
+            if isinstance(n, ast.AugAssign) and isinstance(n.target, ast.Name) and n.target.id == v:
+                accs.append(v)
+                break
+            if isinstance(n, ast.Assign) and any(isinstance(t, ast.Name) and t.id == v for t in n.targets) and reads(n.value, v):
+                accs.append(v)
+                break
+    if not accs:
+        raise AnalysisError(f"{f.qual}: running line variable not recognised (candidates {sorted(running)})")
     for v in accs:
         bad = []
         n_upd = 0
@@ -507,14 +525,16 @@ def r105(an, rep):
             if isinstance(n, ast.AugAssign) and isinstance(n.target, ast.Name) and n.target.id == v:
                 n_upd += 1
                 if not isinstance(n.op, ast.Add) or not reads_delta(n.value):
-                    bad.append(n)
+                    bad.append((n, n.value))
             elif isinstance(n, ast.Assign) and any(isinstance(t, ast.Name) and t.id == v for t in n.targets) and in_loop(n):
-                if not any(isinstance(x, ast.Name) and x.id == v for x in ast.walk(n.value)):
-                    bad.append(n)
-        rep.add("R10.5", f"{f.qual}::{v} is a running sum of line deltas", not bad, loc(f.module, bad[0] if bad else f.node),
-                f"`{v}` starts at a constant and is only ever moved by `+= <line delta of an entry>` ({n_upd} update site(s))" if not bad else
-                f"`{norm_src(bad[0])}` inside the table loop sets the running line by something other than adding an entry's delta: CPython keeps counting from the "
-                f"previous line (an entry without a line does not move it), so every later offset gets a line CPython does not assign")
+                n_upd += 1
+                for arm in arms_of(n.value):
+                    if not reads(arm, v):
+                        bad.append((n, arm))
+        rep.add("R10.5", f"{f.qual}::{v} is a running sum of line deltas", not bad, loc(f.module, bad[0][0] if bad else f.node),
+                f"`{v}` starts at a constant and every update inside the table loop adds an entry's delta to its previous value ({n_upd} update site(s))" if not bad else
+                f"inside the table loop `{v}` is set to `{norm_src(bad[0][1])}`, which does not continue from its previous value (in `{norm_src(bad[0][0])[:70]}`): CPython keeps counting "
+                f"from the previous line (an entry without a line does not move it), so every later offset gets a line CPython does not assign")
 
 
 def r106(an, rep):
